@@ -11,9 +11,20 @@ def delegate(ctx, rep, tier, source_prop, source_rules, rule, text, where=None, 
     if cache is None:
         cache = ctx._delegate_cache = {}
     if source_prop not in cache:
+        # a delegation cycle (A shares a rule of B, B one of A) would recurse for ever: fail at once, naming it
+        running = getattr(ctx, "_delegate_running", None)
+        if running is None:
+            running = ctx._delegate_running = []
+        if source_prop in running:
+            from ..core import AnalysisError
+            raise AnalysisError(f"circular rule sharing: {' -> '.join(running + [source_prop])} (state the clause directly in one of the two modules)")
+        running.append(source_prop)
         sub = Report(source_prop)
         runner = getattr(mod, "_run0", None) if getattr(mod, "DELEGATE_BASE_ONLY", False) else mod.run
-        runner(ctx, sub, tier)
+        try:
+            runner(ctx, sub, tier)
+        finally:
+            running.pop()
         cache[source_prop] = sub
     sub = cache[source_prop]
     n = 0
